@@ -1,7 +1,7 @@
 (** The mempool invariant (C05) and what follows from it (C04, C06, C07, reachability for C01). *)
 From Coq Require Import List NArith ZArith Lia Bool Permutation Sorting.Sorted ZifyN ZifyNat ZifyBool.
 From Verif Require Import Base.BStr Base.ListX Txcache.TxTypes Txcache.SenderList Txcache.Selection Txcache.Pool
-  Txcache.SenderList_proofs.
+  Txcache.SenderList_proofs Txcache.Selection_proofs.
 Import ListNotations.
 Open Scope Z_scope.
 
@@ -156,4 +156,709 @@ Proof.
     destruct (IH _ B1) as (C1 & C2 & C3 & C4). unfold byhash_remove_bulk in *.
     split; [exact C1|]. split; [rewrite C2; exact B2|]. split; [rewrite C3; exact B3|].
     intros h'. rewrite C4, B4. destruct (beqb h h'); simpl; [destruct (existsb _ hs); reflexivity|reflexivity].
+Qed.
+
+(** ---------- the sender map, on its own ---------- *)
+
+Definition list_ok (a : bytes) (sl : slist) : Prop :=
+  items sl <> [] /\ sorted (items sl) /\
+  (forall t, In t (items sl) -> sender t = a /\ (nonce t < two64)%N) /\
+  totalBytes sl = sum_sizes (items sl).
+
+Definition SL (p : pool) : Prop :=
+  NoDup (map fst (senders p)) /\
+  (forall a sl, alookup (senders p) a = Some sl -> list_ok a sl) /\
+  cntSenders p = Z.of_nat (length (senders p)).
+
+Definition listed (p : pool) (t : tx) : Prop :=
+  exists sl, alookup (senders p) (sender t) = Some sl /\ In t (items sl).
+
+(** the set reachable by hash = the set reachable through the senders' lists *)
+Definition Link (p : pool) : Prop := forall t, alookup (byHash p) (hash t) = Some t <-> listed p t.
+
+Definition Inv (p : pool) : Prop := BH p /\ SL p /\ Link p.
+
+Lemma Inv_empty : Inv empty_pool.
+Proof.
+  split; [|split].
+  - unfold BH; simpl. split; [constructor|]. split; [intros h t H; discriminate|]. split; reflexivity.
+  - unfold SL; simpl. split; [constructor|]. split; [intros a sl H; discriminate|reflexivity].
+  - intros t. simpl. split; [discriminate|]. intros (sl & H & _). discriminate.
+Qed.
+
+Lemma listed_hash_inj p t t' : Inv p -> listed p t -> listed p t' -> hash t = hash t' -> t = t'.
+Proof.
+  intros (_ & _ & HL) H1 H2 E. apply HL in H1. apply HL in H2. rewrite E in H1. congruence.
+Qed.
+
+(** replace the list of sender [a] (present) by a sub-list [l'], dropping the sender if empty *)
+Definition shrink_senders (p : pool) (a : bytes) (l' : list tx) (tb : Z) : pool :=
+  remove_sender_if_empty (set_senders p (aset (senders p) a (mkSlist l' tb)) (cntSenders p)) a.
+
+Lemma remove_sender_if_empty_byHash q a :
+  byHash (remove_sender_if_empty q a) = byHash q /\ cntTx (remove_sender_if_empty q a) = cntTx q /\
+  numBytes (remove_sender_if_empty q a) = numBytes q.
+Proof.
+  unfold remove_sender_if_empty, remove_sender, set_senders.
+  destruct (alookup (senders q) a) as [sl|]; [|auto]. destruct (items sl); auto.
+Qed.
+
+Lemma shrink_senders_byHash p a l' tb :
+  byHash (shrink_senders p a l' tb) = byHash p /\ cntTx (shrink_senders p a l' tb) = cntTx p /\
+  numBytes (shrink_senders p a l' tb) = numBytes p.
+Proof.
+  unfold shrink_senders.
+  destruct (remove_sender_if_empty_byHash (set_senders p (aset (senders p) a (mkSlist l' tb)) (cntSenders p)) a) as (A & B & C).
+  rewrite A, B, C. auto.
+Qed.
+
+Lemma shrink_senders_lookup p a sl l' tb b : NoDup (map fst (senders p)) -> alookup (senders p) a = Some sl ->
+  alookup (senders (shrink_senders p a l' tb)) b =
+  if beqb a b then match l' with [] => None | _ => Some (mkSlist l' tb) end else alookup (senders p) b.
+Proof.
+  intros Hnd Ha. unfold shrink_senders, remove_sender_if_empty, remove_sender, set_senders. simpl.
+  rewrite alookup_aset, beqb_refl. simpl. destruct l' as [|x l']; simpl.
+  - rewrite alookup_aremove.
+    + rewrite alookup_aset. destruct (beqb a b); reflexivity.
+    + rewrite (aset_keys_present _ _ _ _ Ha). exact Hnd.
+  - rewrite alookup_aset. reflexivity.
+Qed.
+
+Lemma SL_shrink p a sl l' tb : SL p -> alookup (senders p) a = Some sl ->
+  sorted l' -> (forall t, In t l' -> In t (items sl)) -> tb = sum_sizes l' ->
+  SL (shrink_senders p a l' tb).
+Proof.
+  intros (Hnd & Hok & Hcnt) Ha Hs Hsub Htb. split; [|split].
+  - unfold shrink_senders, remove_sender_if_empty, remove_sender, set_senders. simpl.
+    rewrite alookup_aset, beqb_refl. simpl. destruct l' as [|x l']; simpl.
+    + apply aremove_NoDup. rewrite (aset_keys_present _ _ _ _ Ha). exact Hnd.
+    + rewrite (aset_keys_present _ _ _ _ Ha). exact Hnd.
+  - intros b slb. rewrite (shrink_senders_lookup _ _ _ _ _ _ Hnd Ha).
+    destruct (beqb_spec a b) as [<-|Hne]; [|apply Hok].
+    destruct l' as [|x l']; [discriminate|]. intros E. inversion E; subst slb. clear E.
+    destruct (Hok _ _ Ha) as (_ & _ & Hsend & _).
+    split; [discriminate|]. split; [exact Hs|]. split; [|exact Htb].
+    intros t Ht. apply Hsend. apply Hsub. exact Ht.
+  - unfold shrink_senders, remove_sender_if_empty, remove_sender, set_senders. simpl.
+    rewrite alookup_aset, beqb_refl. simpl. destruct l' as [|x l']; simpl.
+    + rewrite Hcnt.
+      assert (E : alookup (aset (senders p) a {| items := []; totalBytes := tb |}) a = Some {| items := []; totalBytes := tb |})
+        by (rewrite alookup_aset, beqb_refl; reflexivity).
+      rewrite <- (aset_length_present _ a {| items := []; totalBytes := tb |} _ Ha).
+      rewrite (aremove_length _ _ _ E). lia.
+    + rewrite (aset_length_present _ _ _ _ Ha). exact Hcnt.
+Qed.
+
+Lemma listed_shrink p a sl l' tb t : NoDup (map fst (senders p)) -> alookup (senders p) a = Some sl ->
+  (listed (shrink_senders p a l' tb) t <->
+   (sender t = a /\ In t l') \/ (sender t <> a /\ listed p t)).
+Proof.
+  intros Hnd Ha. unfold listed. rewrite (shrink_senders_lookup _ _ _ _ _ _ Hnd Ha).
+  destruct (beqb_spec a (sender t)) as [E|Hne].
+  - split.
+    + intros (sl0 & H1 & H2). destruct l' as [|x l']; [discriminate|]. inversion H1; subst sl0. left. split; [symmetry; exact E|exact H2].
+    + intros [(E' & Hin)|(Hne & _)]; [|congruence]. destruct l' as [|x l']; [destruct Hin|].
+      exists (mkSlist (x :: l') tb). split; [reflexivity|exact Hin].
+  - split.
+    + intros H. right. split; [congruence|exact H].
+    + intros [(E' & _)|(_ & H)]; [congruence|exact H].
+Qed.
+
+(** The general "shrink" step: sender [a]'s list loses exactly [removed]; those hashes leave the index. *)
+Lemma Inv_shrink p a sl l' removed p' :
+  Inv p -> alookup (senders p) a = Some sl ->
+  Permutation (items sl) (l' ++ removed) -> sorted l' ->
+  BH p' -> senders p' = senders (shrink_senders p a l' (sum_sizes l')) ->
+  cntSenders p' = cntSenders (shrink_senders p a l' (sum_sizes l')) ->
+  (forall h, alookup (byHash p') h = if existsb (fun g => beqb g h) (map hash removed) then None else alookup (byHash p) h) ->
+  Inv p'.
+Proof.
+  intros (HB & HS & HL) Ha Hperm Hs HB' Hsend Hcnt Hlook.
+  assert (Hnd : NoDup (map fst (senders p))) by apply HS.
+  assert (Hsub : forall t, In t l' -> In t (items sl)).
+  { intros t Ht. eapply Permutation_in; [apply Permutation_sym; exact Hperm|]. apply in_or_app. left. exact Ht. }
+  assert (HSL : SL (shrink_senders p a l' (sum_sizes l'))) by (eapply SL_shrink; eauto).
+  split; [exact HB'|]. split.
+  { destruct HSL as (S1 & S2 & S3). split; [rewrite Hsend; exact S1|]. split; [rewrite Hsend; exact S2|]. rewrite Hcnt, Hsend. exact S3. }
+  assert (Hnd_items : NoDup (l' ++ removed)).
+  { eapply Permutation_NoDup; [exact Hperm|]. apply sorted_NoDup. destruct HS as (_ & Hok & _). apply (Hok a sl Ha). }
+  intros t. unfold listed. rewrite Hsend. fold (listed (shrink_senders p a l' (sum_sizes l')) t).
+  rewrite (listed_shrink _ _ _ _ _ _ Hnd Ha). rewrite Hlook.
+  destruct (existsb (fun g => beqb g (hash t)) (map hash removed)) eqn:Eex.
+  - (* the hash is one of the removed ones *)
+    apply existsb_exists in Eex. destruct Eex as (g & Hg & Eg). apply beqb_eq in Eg. apply in_map_iff in Hg.
+    destruct Hg as (r & Er & Hr). subst g.
+    assert (Hr_listed : listed p r).
+    { exists sl. destruct (HS) as (_ & Hok & _). destruct (Hok _ _ Ha) as (_ & _ & Hsnd & _).
+      assert (In r (items sl)) by (eapply Permutation_in; [apply Permutation_sym; exact Hperm|apply in_or_app; right; exact Hr]).
+      rewrite (proj1 (Hsnd r H)). auto. }
+    split; [discriminate|]. intros [(Es & Hin)|(Hne & Hlisted)]; exfalso.
+    + assert (t = r).
+      { apply (listed_hash_inj p); [exact (conj HB (conj HS HL))| |exact Hr_listed|congruence].
+        exists sl. rewrite Es. split; [exact Ha|apply Hsub; exact Hin]. }
+      subst t. eapply NoDup_app_disj; [exact Hnd_items|exact Hin|exact Hr].
+    + assert (t = r) by (apply (listed_hash_inj p); [exact (conj HB (conj HS HL))|exact Hlisted|exact Hr_listed|congruence]).
+      subst t. destruct Hr_listed as (sl0 & H0 & _). apply Hne.
+      destruct HS as (_ & Hok & _). destruct (Hok _ _ Ha) as (_ & _ & Hsnd & _).
+      apply Hsnd. eapply Permutation_in; [apply Permutation_sym; exact Hperm|apply in_or_app; right; exact Hr].
+  - rewrite (HL t). split.
+    + intros Hlisted. destruct (list_eq_dec N.eq_dec (sender t) a) as [Es|Hne]; [|right; split; assumption].
+      left. split; [exact Es|]. destruct Hlisted as (sl0 & H0 & Hin). rewrite Es, Ha in H0. inversion H0; subst sl0.
+      apply (Permutation_in _ Hperm) in Hin. apply in_app_or in Hin. destruct Hin as [Hin|Hin]; [exact Hin|].
+      exfalso. assert (existsb (fun g => beqb g (hash t)) (map hash removed) = true); [|congruence].
+      apply existsb_exists. exists (hash t). split; [apply in_map; exact Hin|apply beqb_refl].
+    + intros [(Es & Hin)|(_ & H)]; [|exact H]. exists sl. rewrite Es. split; [exact Ha|apply Hsub; exact Hin].
+Qed.
+
+Lemma BH_congr p q : byHash q = byHash p -> cntTx q = cntTx p -> numBytes q = numBytes p -> BH p -> BH q.
+Proof. intros E1 E2 E3 (A & B & C & D). unfold BH. rewrite E1, E2, E3. auto. Qed.
+
+Lemma shrink_senders_congr p q a l tb : senders q = senders p -> cntSenders q = cntSenders p ->
+  senders (shrink_senders q a l tb) = senders (shrink_senders p a l tb) /\
+  cntSenders (shrink_senders q a l tb) = cntSenders (shrink_senders p a l tb).
+Proof.
+  intros E1 E2. unfold shrink_senders, remove_sender_if_empty, remove_sender, set_senders. simpl. rewrite E1, E2.
+  destruct (alookup (aset (senders p) a {| items := l; totalBytes := tb |}) a) as [s0|]; [|auto].
+  destruct (items s0); auto.
+Qed.
+
+Lemma existsb_beqb_in (hs : list bytes) h : existsb (fun g => beqb g h) hs = true <-> In h hs.
+Proof.
+  rewrite existsb_exists. split.
+  - intros (g & Hg & E). apply beqb_eq in E. subst. exact Hg.
+  - intros H. exists h. split; [exact H|apply beqb_refl].
+Qed.
+
+(** RemoveTxByHash preserves the invariant *)
+Lemma Inv_remove_tx p h : Inv p -> Inv (fst (remove_tx p h)).
+Proof.
+  intros HI. pose proof HI as (HB & HS & HL). unfold remove_tx.
+  destruct (BH_remove p h HB) as (B1 & B2 & B3 & B4 & B5).
+  destruct (byhash_remove p h) as (p1, ot) eqn:Ebr. simpl in B1, B2, B3, B4, B5. subst ot.
+  destruct (alookup (byHash p) h) as [t|] eqn:Eh; [|exact HI].
+  assert (Hht : hash t = h) by (apply HB; exact Eh).
+  assert (Hlisted : listed p t) by (apply HL; rewrite Hht; exact Eh).
+  destruct Hlisted as (sl & Hsl & Hin). rewrite B2, Hsl.
+  destruct HS as (Hnd & Hok & Hcnt). destruct (Hok _ _ Hsl) as (Hne & Hsorted & Hsnd & Htb).
+  unfold sl_remove_leq. pose proof (split_leq_spec (items sl) (nonce t) Hsorted) as Hsp.
+  destruct (split_leq (items sl) (nonce t)) as (gone, kept). destruct Hsp as (Eitems & Hgone & Hkept).
+  assert (Htgone : In t gone).
+  { rewrite Eitems in Hin. apply in_app_or in Hin. destruct Hin as [H|H]; [exact H|]. apply Hkept in H. lia. }
+  cbn [fst].
+  set (p3 := remove_sender_if_empty (set_senders p1 (aset (senders p) (sender t) {| items := kept; totalBytes := totalBytes sl - sum_sizes gone |}) (cntSenders p1)) (sender t)).
+  assert (Ep3 : p3 = shrink_senders p1 (sender t) kept (totalBytes sl - sum_sizes gone)).
+  { unfold p3, shrink_senders. rewrite B2. reflexivity. }
+  assert (Htb' : totalBytes sl - sum_sizes gone = sum_sizes kept).
+  { rewrite Htb, Eitems, sum_sizes_app. lia. }
+  set (pf := match map hash gone with [] => p3 | _ :: _ => byhash_remove_bulk p3 (map hash gone) end).
+  assert (Epf : pf = byhash_remove_bulk p3 (map hash gone)).
+  { unfold pf. destruct (map hash gone) eqn:E; [reflexivity|reflexivity]. }
+  fold pf. rewrite Epf.
+  destruct (shrink_senders_byHash p1 (sender t) kept (totalBytes sl - sum_sizes gone)) as (S1 & S2 & S3).
+  assert (HB3 : BH p3) by (rewrite Ep3; eapply BH_congr; eauto).
+  destruct (BH_remove_bulk p3 (map hash gone) HB3) as (C1 & C2 & C3 & C4).
+  destruct (shrink_senders_congr p p1 (sender t) kept (sum_sizes kept) B2 B3) as (G1 & G2).
+  apply (Inv_shrink p (sender t) sl kept gone); [exact HI|exact Hsl| | |exact C1| | |].
+  - rewrite Eitems. apply Permutation_app_comm.
+  - rewrite Eitems in Hsorted. eapply sorted_app_r. exact Hsorted.
+  - rewrite C2, Ep3, Htb'. exact G1.
+  - rewrite C3, Ep3, Htb'. exact G2.
+  - intros h'. rewrite C4, Ep3, S1, B4.
+    destruct (existsb (fun g => beqb g h') (map hash gone)) eqn:Eex; [reflexivity|].
+    destruct (beqb_spec h h') as [<-|]; [|reflexivity].
+    exfalso. assert (existsb (fun g => beqb g h) (map hash gone) = true); [|congruence].
+    apply existsb_beqb_in. rewrite <- Hht. apply in_map. exact Htgone.
+Qed.
+
+(** ---------- insertion ---------- *)
+
+Lemma aset_same {V} (l : list (bytes * V)) k v : alookup l k = Some v -> aset l k v = l.
+Proof.
+  induction l as [|(k0, v0) l IH]; simpl; [discriminate|].
+  destruct (beqb_spec k0 k) as [->|Hne]; [intros E; inversion E; reflexivity|intros H; f_equal; exact (IH H)].
+Qed.
+
+Lemma aset_aset {V} (l : list (bytes * V)) k v w : aset (aset l k v) k w = aset l k w.
+Proof.
+  induction l as [|(k0, v0) l IH]; simpl; [rewrite beqb_refl; reflexivity|].
+  destruct (beqb_spec k0 k) as [->|Hne]; simpl; [rewrite beqb_refl; reflexivity|].
+  destruct (beqb_spec k0 k); [contradiction|]. f_equal. exact IH.
+Qed.
+
+Lemma aset_snoc {V} (l : list (bytes * V)) k v w : alookup l k = None -> aset (l ++ [(k, v)]) k w = l ++ [(k, w)].
+Proof.
+  induction l as [|(k0, v0) l IH]; simpl; intros H; [rewrite beqb_refl; reflexivity|].
+  destruct (beqb_spec k0 k) as [->|Hne]; [discriminate|]. f_equal. exact (IH H).
+Qed.
+
+Definition old_items (p : pool) (a : bytes) : list tx :=
+  match alookup (senders p) a with Some sl => items sl | None => [] end.
+
+Definition tx_wf (t : tx) : Prop := (nonce t < two64)%N.
+
+Lemma Inv_grow p t l' p' :
+  Inv p -> alookup (byHash p) (hash t) = None -> tx_wf t ->
+  Permutation l' (t :: old_items p (sender t)) -> sorted l' ->
+  BH p' -> NoDup (map fst (senders p')) -> cntSenders p' = Z.of_nat (length (senders p')) ->
+  (forall b, alookup (senders p') b = if beqb (sender t) b then Some (mkSlist l' (sum_sizes l')) else alookup (senders p) b) ->
+  (forall h, alookup (byHash p') h = if beqb (hash t) h then Some t else alookup (byHash p) h) ->
+  Inv p'.
+Proof.
+  intros HI Hnone Hwf Hperm Hs HB' Hnd' Hcnt' Hsl Hbh. pose proof HI as (HB & (Hnd & Hok & Hcnt) & HL).
+  assert (Hold : forall x, In x (old_items p (sender t)) -> sender x = sender t /\ (nonce x < two64)%N /\ listed p x).
+  { unfold old_items. intros x Hx. destruct (alookup (senders p) (sender t)) as [sl|] eqn:E; [|destruct Hx].
+    destruct (Hok _ _ E) as (_ & _ & Hsnd & _). destruct (Hsnd x Hx) as (A & B). split; [exact A|]. split; [exact B|].
+    exists sl. rewrite A. auto. }
+  assert (Hnot_old : forall x, listed p x -> hash x <> hash t).
+  { intros x Hx E. apply HL in Hx. rewrite E in Hx. congruence. }
+  split; [exact HB'|]. split.
+  - split; [exact Hnd'|]. split; [|exact Hcnt']. intros b slb. rewrite Hsl.
+    destruct (beqb_spec (sender t) b) as [<-|Hne]; [|apply Hok].
+    intros E. inversion E; subst slb. clear E. split; [|split; [exact Hs|split; [|reflexivity]]].
+    + simpl. intros El. rewrite El in Hperm. apply Permutation_nil in Hperm. discriminate.
+    + simpl. intros x Hx. apply (Permutation_in _ Hperm) in Hx. destruct Hx as [<-|Hx]; [split; [reflexivity|exact Hwf]|].
+      destruct (Hold x Hx) as (A & B & _). auto.
+  - intros x. rewrite Hbh. unfold listed. rewrite Hsl.
+    destruct (beqb_spec (hash t) (hash x)) as [Eh|Hneh].
+    + split.
+      * intros E. inversion E; subst x. rewrite beqb_refl. eexists. split; [reflexivity|]. simpl.
+        eapply Permutation_in; [apply Permutation_sym; exact Hperm|left; reflexivity].
+      * intros (slx & Hslx & Hin). destruct (beqb_spec (sender t) (sender x)) as [Es|Hnes].
+        -- inversion Hslx; subst slx. simpl in Hin. apply (Permutation_in _ Hperm) in Hin.
+           destruct Hin as [<-|Hin]; [reflexivity|]. exfalso. destruct (Hold x Hin) as (_ & _ & Hl). exact (Hnot_old x Hl (eq_sym Eh)).
+        -- exfalso. apply (Hnot_old x); [exists slx; auto|congruence].
+    + rewrite (HL x). unfold listed. destruct (beqb_spec (sender t) (sender x)) as [Es|Hnes]; [|reflexivity].
+      split.
+      * intros (slx & Hslx & Hin). eexists. split; [reflexivity|]. simpl.
+        eapply Permutation_in; [apply Permutation_sym; exact Hperm|]. right. unfold old_items. rewrite Es, Hslx. exact Hin.
+      * intros (slx & Hslx & Hin). inversion Hslx; subst slx. simpl in Hin. apply (Permutation_in _ Hperm) in Hin.
+        destruct Hin as [<-|Hin]; [congruence|]. destruct (Hold x Hin) as (_ & _ & Hl). exact Hl.
+Qed.
+
+(** "hash determines content" at the point of an insertion *)
+Definition agrees (p : pool) (t : tx) : Prop := forall t', alookup (byHash p) (hash t) = Some t' -> t' = t.
+
+Lemma set_senders_id p : set_senders p (senders p) (cntSenders p) = p.
+Proof. destruct p; reflexivity. Qed.
+
+Lemma rev_cons_inv {A} (l : list A) x r : rev l = x :: r -> l = rev r ++ [x].
+Proof. intros H. rewrite <- (rev_involutive l), H. reflexivity. Qed.
+
+(** the insertion proper preserves the invariant *)
+Lemma Inv_add_core cfg p t : Inv p -> agrees p t -> tx_wf t -> Inv (fst (add_core cfg p t)).
+Proof.
+  intros HI Hag Hwf. pose proof HI as (HB & (Hnd & Hok & Hcnt) & HL). unfold add_core.
+  destruct (BH_add p t HB) as (A1 & A2 & A3 & A4 & A5).
+  destruct (byhash_add p t) as (p1, addedH) eqn:Eadd. simpl in A1, A2, A3, A4, A5.
+  destruct (alookup (byHash p) (hash t)) as [t'|] eqn:Eh.
+  - (* already pooled: nothing changes *)
+    assert (t' = t) by (apply Hag; exact Eh). subst t'.
+    assert (Hl : listed p t) by (apply HL; exact Eh). destruct Hl as (sl & Hsl & Hin).
+    assert (Ep1 : p1 = p). { unfold byhash_add in Eadd. rewrite Eh in Eadd. inversion Eadd. reflexivity. }
+    subst p1. rewrite Hsl. unfold sl_add.
+    destruct (Hok _ _ Hsl) as (_ & Hsorted & _ & _).
+    pose proof (insert_sorted_spec (items sl) t Hsorted) as Hins.
+    destruct (insert_sorted (items sl) t) as [l'|].
+    + exfalso. destruct Hins as (_ & _ & Hno). apply (Hno t Hin). repeat split; reflexivity.
+    + cbn [fst]. rewrite (aset_same _ _ _ Hsl), set_senders_id. exact HI.
+  - (* a new hash *)
+    assert (Hlook1 : forall h, alookup (byHash p1) h = if beqb (hash t) h then Some t else alookup (byHash p) h) by exact A4.
+    set (a := sender t) in *.
+    (* the pool right after the sorted insert, before the size constraints *)
+    assert (Hins_ok : forall sl, alookup (senders p) a = Some sl -> exists l', insert_sorted (items sl) t = Some l').
+    { intros sl Hsl. destruct (Hok _ _ Hsl) as (_ & Hsorted & _ & _).
+      pose proof (insert_sorted_spec (items sl) t Hsorted) as Hins.
+      destruct (insert_sorted (items sl) t) as [l'|]; [eauto|]. exfalso.
+      destruct Hins as (c & Hc & _ & _ & Ehc).
+      assert (Hlc : listed p c). { exists sl. destruct (Hok _ _ Hsl) as (_ & _ & Hsnd & _). rewrite (proj1 (Hsnd c Hc)). auto. }
+      apply HL in Hlc. rewrite Ehc in Hlc. congruence. }
+    cbv beta iota.
+    match goal with |- Inv ?X =>
+    assert (Hmid : exists pm l' sl1,
+       Inv pm /\ alookup (senders pm) a = Some sl1 /\ items sl1 = l' /\ totalBytes sl1 = sum_sizes l' /\
+       byHash pm = byHash p1 /\ cntTx pm = cntTx p1 /\ numBytes pm = numBytes p1 /\
+       X =
+       (let '(sl2, ev) := apply_size_constraints cfg sl1 in
+        let p3 := set_senders pm (aset (senders pm) a sl2) (cntSenders pm) in
+        let p4 := match ev with [] => p3 | _ => remove_sender_if_empty p3 a end in
+        match ev with [] => p4 | _ => byhash_remove_bulk p4 ev end)) end.
+    { rewrite A2. destruct (alookup (senders p) a) as [sl|] eqn:Esl.
+      - destruct (Hins_ok sl eq_refl) as (l' & El'). unfold sl_add. rewrite El'.
+        destruct (Hok _ _ Esl) as (Hne & Hsorted & Hsnd & Htb).
+        pose proof (insert_sorted_spec (items sl) t Hsorted) as Hins. rewrite El' in Hins. destruct Hins as (Hs' & Hp' & _).
+        set (sl1 := {| items := l'; totalBytes := totalBytes sl + size t |}).
+        set (pm := set_senders p1 (aset (senders p) a sl1) (cntSenders p1)).
+        exists pm, l', sl1.
+        assert (Htb1 : totalBytes sl1 = sum_sizes l').
+        { unfold sl1; simpl. rewrite (sum_sizes_perm _ _ Hp'), Htb. simpl. lia. }
+        split; [|split; [unfold pm; simpl; rewrite alookup_aset, beqb_refl; reflexivity|split; [reflexivity|split; [exact Htb1|]]]].
+        + apply (Inv_grow p t l'); [exact HI|exact Eh|exact Hwf| |exact Hs'| | | | |exact Hlook1].
+          * unfold old_items. fold a. rewrite Esl. exact Hp'.
+          * eapply BH_congr; [| | |exact A1]; reflexivity.
+          * unfold pm; simpl. rewrite (aset_keys_present _ _ _ _ Esl). exact Hnd.
+          * unfold pm; simpl. rewrite A3, Hcnt, (aset_length_present _ _ _ _ Esl). reflexivity.
+          * intros b. unfold pm; simpl. rewrite alookup_aset. fold a. destruct (beqb a b); [|reflexivity].
+            unfold sl1. rewrite <- Htb1. reflexivity.
+        + split; [reflexivity|]. split; [reflexivity|]. split; [reflexivity|].
+          destruct (apply_size_constraints cfg sl1) as (sl2, ev) eqn:Easc. cbn [fst].
+          unfold pm, set_senders. cbn [senders cntSenders byHash cntTx numBytes]. rewrite ?A2, aset_aset.
+          destruct ev; reflexivity.
+      - (* first transaction of this sender *)
+        unfold sl_add. simpl insert_sorted.
+        set (sl1 := {| items := [t]; totalBytes := 0 + size t |}).
+        set (pm := set_senders p1 (senders p ++ [(a, sl1)]) (cntSenders p1 + 1)).
+        exists pm, [t], sl1.
+        assert (Htb1 : totalBytes sl1 = sum_sizes [t]) by (unfold sl1; simpl; lia).
+        split; [|split; [unfold pm; simpl; rewrite (alookup_snoc _ _ _ _ Esl), beqb_refl; reflexivity|split; [reflexivity|split; [exact Htb1|]]]].
+        + apply (Inv_grow p t [t]); [exact HI|exact Eh|exact Hwf| | | | | | |exact Hlook1].
+          * unfold old_items. fold a. rewrite Esl. reflexivity.
+          * repeat constructor.
+          * eapply BH_congr; [| | |exact A1]; reflexivity.
+          * unfold pm; simpl. rewrite map_app. simpl. apply NoDup_app_intro; [exact Hnd|repeat constructor; intros []|].
+            intros x Hx [<-|[]]. apply alookup_None in Esl. contradiction.
+          * unfold pm; simpl. rewrite A3, Hcnt, app_length. simpl. lia.
+          * intros b. unfold pm; simpl. rewrite (alookup_snoc _ _ _ _ Esl). fold a. destruct (beqb a b); [|reflexivity].
+            unfold sl1. simpl. repeat f_equal. lia.
+        + split; [reflexivity|]. split; [reflexivity|]. split; [reflexivity|].
+          change (insert_sorted [] t) with (Some [t]). cbv beta iota.
+          change (totalBytes empty_slist + size t) with (0 + size t). fold sl1.
+          destruct (apply_size_constraints cfg sl1) as (sl2, ev) eqn:Easc. cbn [fst].
+          unfold pm, set_senders. cbn [senders cntSenders byHash cntTx numBytes]. rewrite !(aset_snoc _ _ _ _ Esl).
+          destruct ev; reflexivity. }
+    destruct Hmid as (pm & l' & sl1 & HIm & Hslm & Eit & Etb & M1 & M2 & M3 & Efinal).
+    rewrite Efinal. clear Efinal.
+    unfold apply_size_constraints. destruct (sl_exceeded cfg sl1).
+    + rewrite Eit. destruct (rev l') as [|lastt rfront] eqn:Erev.
+      * cbn [fst]. rewrite (aset_same _ _ _ Hslm), set_senders_id. exact HIm.
+      * apply rev_cons_inv in Erev.
+        set (l2 := rev rfront). cbn [app].
+        pose proof HIm as (HBm & (Hndm & Hokm & Hcntm) & HLm).
+        destruct (Hokm _ _ Hslm) as (_ & Hsm & _ & _). rewrite Eit, Erev in Hsm.
+        assert (Etb2 : totalBytes sl1 - size lastt = sum_sizes l2).
+        { rewrite Etb, Erev, sum_sizes_app. simpl. unfold l2. lia. }
+        set (p4 := remove_sender_if_empty (set_senders pm (aset (senders pm) a {| items := l2; totalBytes := totalBytes sl1 - size lastt |}) (cntSenders pm)) a).
+        assert (Ep4 : p4 = shrink_senders pm a l2 (sum_sizes l2)). { unfold p4, shrink_senders. rewrite Etb2. reflexivity. }
+        destruct (shrink_senders_byHash pm a l2 (sum_sizes l2)) as (S1 & S2 & S3).
+        assert (HB4 : BH p4) by (rewrite Ep4; eapply BH_congr; eauto).
+        destruct (BH_remove_bulk p4 [hash lastt] HB4) as (C1 & C2 & C3 & C4).
+        apply (Inv_shrink pm a sl1 l2 [lastt]); [exact HIm|exact Hslm| | |exact C1| | |].
+        -- rewrite Eit, Erev. reflexivity.
+        -- eapply sorted_app_l. exact Hsm.
+        -- rewrite C2, Ep4. reflexivity.
+        -- rewrite C3, Ep4. reflexivity.
+        -- intros h. rewrite C4, Ep4, S1. reflexivity.
+    + cbn [fst]. rewrite (aset_same _ _ _ Hslm), set_senders_id. exact HIm.
+Qed.
+
+(** ---------- eviction ---------- *)
+
+Definition sub_pool (p q : pool) : Prop := forall x, listed p x -> listed q x.
+
+Lemma sub_pool_refl p : sub_pool p p. Proof. intros x H; exact H. Qed.
+Lemma sub_pool_trans p q r : sub_pool p q -> sub_pool q r -> sub_pool p r.
+Proof. intros H1 H2 x H. apply H2, H1, H. Qed.
+
+Lemma listed_congr p q x : senders q = senders p -> listed q x <-> listed p x.
+Proof. intros E. unfold listed. rewrite E. reflexivity. Qed.
+
+Lemma Inv_lookup_ext p q : Inv p -> BH q -> senders q = senders p -> cntSenders q = cntSenders p ->
+  (forall h, alookup (byHash q) h = alookup (byHash p) h) -> Inv q.
+Proof.
+  intros (HB & (S1 & S2 & S3) & HL) HBq Es Ec Hl. split; [exact HBq|]. split.
+  - unfold SL. rewrite Es, Ec. auto.
+  - intros t. rewrite Hl, (listed_congr p q t Es). apply HL.
+Qed.
+
+(** removeTransactionsWithHigherOrEqualNonce for one sender + the index update *)
+Lemma Inv_evict_sender_suffix p a n : Inv p ->
+  Inv (evict_sender_suffix p a n) /\ sub_pool (evict_sender_suffix p a n) p /\
+  (forall x, listed (evict_sender_suffix p a n) x -> sender x = a -> (nonce x < n)%N).
+Proof.
+  intros HI. pose proof HI as (HB & (Hnd & Hok & Hcnt) & HL). unfold evict_sender_suffix.
+  destruct (alookup (senders p) a) as [sl|] eqn:Esl.
+  2:{ split; [exact HI|]. split; [apply sub_pool_refl|]. intros x (slx & Hx & _) Ex. rewrite Ex, Esl in Hx. discriminate. }
+  destruct (Hok _ _ Esl) as (Hne & Hsorted & Hsnd & Htb).
+  unfold sl_remove_geq. pose proof (split_geq_rev_spec (rev (items sl)) n (proj1 (sorted_rev _) Hsorted)) as Hsp.
+  destruct (split_geq_rev (rev (items sl)) n) as (gone, keptrev). destruct Hsp as (Erev & Hgone & Hkept).
+  assert (Eitems : items sl = rev keptrev ++ rev gone).
+  { rewrite <- (rev_involutive (items sl)), Erev, rev_app_distr. reflexivity. }
+  set (l2 := rev keptrev).
+  assert (Etb2 : totalBytes sl - sum_sizes gone = sum_sizes l2).
+  { rewrite Htb, Eitems, sum_sizes_app, (sum_sizes_rev gone). unfold l2. lia. }
+  set (p2 := remove_sender_if_empty (set_senders p (aset (senders p) a {| items := l2; totalBytes := totalBytes sl - sum_sizes gone |}) (cntSenders p)) a).
+  assert (Ep2 : p2 = shrink_senders p a l2 (sum_sizes l2)). { unfold p2, shrink_senders. rewrite Etb2. reflexivity. }
+  destruct (shrink_senders_byHash p a l2 (sum_sizes l2)) as (S1 & S2 & S3).
+  assert (HB2 : BH p2) by (rewrite Ep2; eapply BH_congr; eauto).
+  destruct (BH_remove_bulk p2 (map hash gone) HB2) as (C1 & C2 & C3 & C4).
+  assert (Hsub_items : forall t, In t l2 -> In t (items sl)).
+  { intros t Ht. rewrite Eitems. apply in_or_app. left. exact Ht. }
+  split; [|split].
+  - apply (Inv_shrink p a sl l2 gone); [exact HI|exact Esl| | |exact C1| | |].
+    + rewrite Eitems. apply Permutation_app_head. symmetry. apply Permutation_rev.
+    + rewrite Eitems in Hsorted. eapply sorted_app_l. exact Hsorted.
+    + rewrite C2, Ep2. reflexivity.
+    + rewrite C3, Ep2. reflexivity.
+    + intros h. rewrite C4, Ep2, S1. reflexivity.
+  - intros x Hx. apply (listed_congr _ _ x C2) in Hx. rewrite Ep2 in Hx.
+    apply (listed_shrink _ _ _ _ _ _ Hnd Esl) in Hx. destruct Hx as [(Ex & Hin)|(_ & H)]; [|exact H].
+    exists sl. rewrite Ex. split; [exact Esl|apply Hsub_items; exact Hin].
+  - intros x Hx Ex. apply (listed_congr _ _ x C2) in Hx. rewrite Ep2 in Hx.
+    apply (listed_shrink _ _ _ _ _ _ Hnd Esl) in Hx. destruct Hx as [(_ & Hin)|(Hne' & _)]; [|contradiction].
+    apply Hkept. apply in_rev. exact Hin.
+Qed.
+
+Lemma Inv_evict_fold p L : Inv p ->
+  let q := fold_left (fun q sn => evict_sender_suffix q (fst sn) (snd sn)) L p in
+  Inv q /\ sub_pool q p /\
+  (forall s n x, In (s, n) L -> listed q x -> sender x = s -> (nonce x < n)%N).
+Proof.
+  revert p; induction L as [|(s0, n0) L IH]; intros p HI; simpl.
+  - split; [exact HI|]. split; [apply sub_pool_refl|]. intros s n x [].
+  - destruct (Inv_evict_sender_suffix p s0 n0 HI) as (I1 & Sb1 & N1).
+    destruct (IH _ I1) as (I2 & Sb2 & N2). split; [exact I2|]. split; [eapply sub_pool_trans; eassumption|].
+    intros s n x [E|Hin] Hx Es.
+    + inversion E; subst. apply N1; [apply Sb2; exact Hx|reflexivity].
+    + eapply N2; eassumption.
+Qed.
+
+(** cursors over the reversed lists *)
+Definition ctxs (c : ecursor) : list tx := ecur c :: erest c.
+Definition cwf (c : ecursor) : Prop :=
+  forall x, In x (erest c) -> sender x = sender (ecur c) /\ (nonce x <= nonce (ecur c))%N.
+Definition cwf_deep (c : ecursor) : Prop :=
+  StronglySorted (fun a b => sender b = sender a /\ (nonce b <= nonce a)%N) (ctxs c).
+Definition cursors_ok (cs : list ecursor) : Prop :=
+  (forall c, In c cs -> cwf_deep c) /\ NoDup (map (fun c => sender (ecur c)) cs).
+
+Lemma cwf_deep_cwf c : cwf_deep c -> cwf c.
+Proof.
+  unfold cwf_deep, cwf, ctxs. intros H x Hx. inversion H as [|? ? _ Hall]; subst.
+  rewrite Forall_forall in Hall. apply Hall. exact Hx.
+Qed.
+
+Lemma cwf_deep_advance c t r : cwf_deep c -> erest c = t :: r -> cwf_deep (mkEc t r) /\ sender t = sender (ecur c).
+Proof.
+  unfold cwf_deep, ctxs. intros H E. rewrite E in H. inversion H as [|? ? Hs Hall]; subst. simpl. split; [exact Hs|].
+  rewrite Forall_forall in Hall. apply (Hall t). left. reflexivity.
+Qed.
+
+Lemma worst_index_bound cs i w n : worst_index cs i w = Some n ->
+  (match w with Some (j, _) => n = j \/ (i <= n < i + length cs)%nat | None => (i <= n < i + length cs)%nat end).
+Proof.
+  revert i w; induction cs as [|c cs IH]; intros i w H; simpl in H.
+  - destruct w as [(j, wt)|]; simpl in H; [inversion H; left; reflexivity|discriminate].
+  - destruct w as [(j, wt)|].
+    + destruct (more_valuable wt (ecur c)); apply IH in H; simpl in *.
+      * destruct H as [->|H]; right; lia.
+      * destruct H as [->|H]; [left; reflexivity|right; lia].
+    + apply IH in H. simpl in *. destruct H as [->|H]; lia.
+Qed.
+
+(** one pass *)
+Lemma take_batch_spec k cs batch cs' : cursors_ok cs -> take_batch k cs = (batch, cs') ->
+  cursors_ok cs' /\
+  (forall b, In b batch -> exists c, In c cs /\ In b (ctxs c)) /\
+  (forall c', In c' cs' -> exists c, In c cs /\ sender (ecur c') = sender (ecur c) /\ forall x, In x (ctxs c') -> In x (ctxs c)) /\
+  (forall pre b post b', batch = pre ++ b :: post -> In b' post -> sender b' = sender b -> (nonce b' <= nonce b)%N).
+Proof.
+  revert cs batch cs'; induction k as [|k IH]; intros cs batch cs' Hok H; simpl in H.
+  - inversion H; subst. split; [exact Hok|]. split; [intros b []|]. split.
+    + intros c' Hc'. exists c'. split; [exact Hc'|]. split; [reflexivity|auto].
+    + intros pre b post b' E. destruct pre; discriminate.
+  - destruct (worst_index cs 0 None) as [i|] eqn:Ew.
+    2:{ inversion H; subst. split; [exact Hok|]. split; [intros b []|]. split.
+        - intros c' Hc'. exists c'. split; [exact Hc'|]. split; [reflexivity|auto].
+        - intros pre b post b' E. destruct pre; discriminate. }
+    destruct (take_nth i cs) as [(c, others)|] eqn:Et.
+    2:{ inversion H; subst. split; [exact Hok|]. split; [intros b []|]. split.
+        - intros c' Hc'. exists c'. split; [exact Hc'|]. split; [reflexivity|auto].
+        - intros pre b post b' E. destruct pre; discriminate. }
+    destruct (take_nth_spec _ _ _ _ Et) as (l1 & l2 & Ecs & Eo).
+    destruct Hok as (Hdeep & Hnd).
+    assert (Hc : In c cs) by (rewrite Ecs; apply in_or_app; right; left; reflexivity).
+    assert (Hothers : forall c0, In c0 others -> In c0 cs).
+    { intros c0 H0. rewrite Ecs. rewrite Eo in H0. apply in_app_or in H0. apply in_or_app. destruct H0; [left|right; right]; assumption. }
+    assert (Hnd' : NoDup (map (fun c => sender (ecur c)) others) /\ ~ In (sender (ecur c)) (map (fun c => sender (ecur c)) others)).
+    { rewrite Ecs, map_app in Hnd. simpl in Hnd. rewrite Eo, map_app. split; [eapply NoDup_remove_1|eapply NoDup_remove_2]; eassumption. }
+    destruct Hnd' as (Hnd1 & Hnd2).
+    set (cs1 := match erest c with [] => others | t :: r => mkEc t r :: others end) in *.
+    assert (Hok1 : cursors_ok cs1 /\ (forall c1, In c1 cs1 -> exists c0, In c0 cs /\ sender (ecur c1) = sender (ecur c0) /\ forall x, In x (ctxs c1) -> In x (ctxs c0))
+                   /\ (forall c1, In c1 cs1 -> sender (ecur c1) = sender (ecur c) -> forall x, In x (ctxs c1) -> (nonce x <= nonce (ecur c))%N)).
+    { unfold cs1. destruct (erest c) as [|t r] eqn:Er.
+      - split; [split; [intros c0 H0; apply Hdeep; auto|exact Hnd1]|]. split.
+        + intros c1 H1. exists c1. split; [auto|]. split; [reflexivity|auto].
+        + intros c1 H1 Es. exfalso. apply Hnd2. rewrite <- Es. apply (in_map (fun c => sender (ecur c))). exact H1.
+      - destruct (cwf_deep_advance c t r (Hdeep c Hc) Er) as (Hd & Est).
+        split; [split|split].
+        + intros c0 [<-|H0]; [exact Hd|apply Hdeep; auto].
+        + simpl. constructor; [rewrite Est; exact Hnd2|exact Hnd1].
+        + intros c1 [<-|H1].
+          * exists c. split; [exact Hc|]. split; [exact Est|]. intros x Hx. unfold ctxs in *. simpl in Hx. rewrite Er. right. exact Hx.
+          * exists c1. split; [auto|]. split; [reflexivity|auto].
+        + intros c1 [<-|H1] Es x Hx.
+          * apply (cwf_deep_cwf c (Hdeep c Hc)). rewrite Er. exact Hx.
+          * exfalso. apply Hnd2. rewrite <- Es. apply (in_map (fun c => sender (ecur c))). exact H1. }
+    destruct Hok1 as (Hok1 & Hfrom1 & Hle1).
+    destruct (take_batch k cs1) as (b1, cs2) eqn:Etb. inversion H; subst batch cs'. clear H.
+    destruct (IH cs1 b1 cs2 Hok1 Etb) as (I1 & I2 & I3 & I4).
+    split; [exact I1|]. split; [|split].
+    + intros b [<-|Hb]; [exists c; split; [exact Hc|left; reflexivity]|].
+      destruct (I2 b Hb) as (c1 & Hc1 & Hin1). destruct (Hfrom1 c1 Hc1) as (c0 & Hc0 & _ & Hsub). exists c0. auto.
+    + intros c' Hc'. destruct (I3 c' Hc') as (c1 & Hc1 & Es1 & Hsub1). destruct (Hfrom1 c1 Hc1) as (c0 & Hc0 & Es0 & Hsub0).
+      exists c0. split; [exact Hc0|]. split; [congruence|auto].
+    + intros pre b post b' E Hb' Es. destruct pre as [|y pre]; simpl in E; inversion E; subst.
+      * destruct (I2 b' Hb') as (c1 & Hc1 & Hin1).
+        assert (Es1 : sender (ecur c1) = sender (ecur c)).
+        { destruct (Hok1) as (Hd1 & _). pose proof (Hd1 c1 Hc1) as Hd. unfold cwf_deep, ctxs in Hd.
+          destruct Hin1 as [<-|Hin1]; [exact Es|]. inversion Hd as [|? ? _ Hall]; subst. rewrite Forall_forall in Hall.
+          destruct (Hall b' Hin1) as (A & _). congruence. }
+        apply (Hle1 c1 Hc1 Es1 b' Hin1).
+      * eapply I4; eauto.
+Qed.
+
+Lemma lowest_keep batch acc s : (forall b, In b batch -> sender b <> s) -> alookup (lowest_by_sender batch acc) s = alookup acc s.
+Proof.
+  revert acc; induction batch as [|x r IH]; intros acc H; simpl; [reflexivity|].
+  rewrite IH by (intros b Hb; apply H; right; exact Hb). rewrite alookup_aset.
+  destruct (beqb_spec (sender x) s) as [E|]; [exfalso; apply (H x); [left; reflexivity|exact E]|reflexivity].
+Qed.
+
+Lemma lowest_spec batch acc :
+  (forall pre b post b', batch = pre ++ b :: post -> In b' post -> sender b' = sender b -> (nonce b' <= nonce b)%N) ->
+  forall b, In b batch -> exists n, alookup (lowest_by_sender batch acc) (sender b) = Some n /\ (n <= nonce b)%N.
+Proof.
+  revert acc; induction batch as [|x r IH]; intros acc Hdesc b Hb; [destruct Hb|]. simpl.
+  assert (Hdesc' : forall pre b post b', r = pre ++ b :: post -> In b' post -> sender b' = sender b -> (nonce b' <= nonce b)%N).
+  { intros pre b0 post b' E. apply (Hdesc (x :: pre) b0 post b'). rewrite E. reflexivity. }
+  destruct Hb as [<-|Hb]; [|apply IH; assumption].
+  destruct (existsb (fun y => beqb (sender y) (sender x)) r) eqn:Eex.
+  - apply existsb_exists in Eex. destruct Eex as (y & Hy & Ey). apply beqb_eq in Ey.
+    destruct (IH (aset acc (sender x) (nonce x)) Hdesc' y Hy) as (n & Hn & Hle). exists n. split; [rewrite <- Ey at 2; exact Hn|].
+    assert ((nonce y <= nonce x)%N) by (apply (Hdesc [] x r y eq_refl Hy Ey)). lia.
+  - exists (nonce x). split; [|lia]. rewrite lowest_keep.
+    + rewrite alookup_aset, beqb_refl. reflexivity.
+    + intros y Hy E. assert (existsb (fun y => beqb (sender y) (sender x)) r = true); [|congruence].
+      apply existsb_exists. exists y. split; [exact Hy|apply beqb_eq; exact E].
+Qed.
+
+Lemma rsorted_desc rl a : rsorted rl -> (forall x, In x rl -> sender x = a) ->
+  StronglySorted (fun u v => sender v = sender u /\ (nonce v <= nonce u)%N) rl.
+Proof.
+  induction 1 as [|x rl Hs IH Hall]; intros Hsnd; constructor.
+  - apply IH. intros y Hy. apply Hsnd. right. exact Hy.
+  - rewrite Forall_forall in Hall |- *. intros y Hy. split.
+    + rewrite (Hsnd y (or_intror Hy)), (Hsnd x (or_introl eq_refl)). reflexivity.
+    + apply precedes_nonce. apply Hall. exact Hy.
+Qed.
+
+Lemma mk_ecursors_spec ss :
+  NoDup (map fst ss) -> (forall a sl, In (a, sl) ss -> list_ok a sl) ->
+  (forall c, In c (mk_ecursors ss) -> cwf_deep c /\ exists a sl, In (a, sl) ss /\ sender (ecur c) = a /\ forall x, In x (ctxs c) -> In x (items sl)) /\
+  NoDup (map (fun c => sender (ecur c)) (mk_ecursors ss)) /\
+  (forall s, In s (map (fun c => sender (ecur c)) (mk_ecursors ss)) -> In s (map fst ss)).
+Proof.
+  induction ss as [|(a, sl) ss IH]; intros Hnd Hok; simpl.
+  - split; [intros c []|]. split; [constructor|intros s []].
+  - inversion Hnd; subst. destruct (IH H2 (fun a0 sl0 H => Hok a0 sl0 (or_intror H))) as (I1 & I2 & I3).
+    destruct (Hok a sl (or_introl eq_refl)) as (Hne & Hsorted & Hsnd & _).
+    destruct (rev (items sl)) as [|t rr] eqn:Er.
+    + split; [|split; [exact I2|intros s Hs; right; apply I3; exact Hs]].
+      intros c Hc. destruct (I1 c Hc) as (A & a0 & sl0 & B & C). split; [exact A|]. exists a0, sl0. split; [right; exact B|exact C].
+    + assert (Hin_rev : forall x, In x (t :: rr) -> In x (items sl)) by (intros x Hx; apply in_rev; rewrite Er; exact Hx).
+      assert (Est : sender t = a) by (apply Hsnd, Hin_rev; left; reflexivity).
+      split; [|split].
+      * intros c [<-|Hc].
+        -- split.
+           ++ unfold cwf_deep, ctxs. simpl. rewrite <- Er. apply (rsorted_desc _ a); [apply sorted_rev; exact Hsorted|].
+              intros x Hx. apply Hsnd. apply in_rev. exact Hx.
+           ++ exists a, sl. split; [left; reflexivity|]. split; [exact Est|exact Hin_rev].
+        -- destruct (I1 c Hc) as (A & a0 & sl0 & B & C). split; [exact A|]. exists a0, sl0. split; [right; exact B|exact C].
+      * simpl. constructor; [|exact I2]. rewrite Est. intros Hin. apply H1. apply I3. exact Hin.
+      * simpl. intros s [<-|Hs]; [left; symmetry; exact Est|right; apply I3; exact Hs].
+Qed.
+
+Definition pass_inv (P0 : pool) (cs : list ecursor) (p : pool) : Prop :=
+  Inv p /\ sub_pool p P0 /\ cursors_ok cs /\ (forall c x, In c cs -> In x (ctxs c) -> listed P0 x).
+
+Lemma pass_inv_init p : Inv p -> pass_inv p (mk_ecursors (senders p)) p.
+Proof.
+  intros HI. pose proof HI as (HB & (Hnd & Hok & Hcnt) & HL).
+  destruct (mk_ecursors_spec (senders p) Hnd) as (I1 & I2 & _).
+  { intros a sl Hin. apply Hok. apply In_alookup; assumption. }
+  split; [exact HI|]. split; [apply sub_pool_refl|]. split.
+  - split; [intros c Hc; apply (I1 c Hc)|exact I2].
+  - intros c x Hc Hx. destruct (I1 c Hc) as (_ & a & sl & Hin & Ea & Hsub).
+    exists sl. assert (Hl : alookup (senders p) a = Some sl) by (apply In_alookup; assumption).
+    destruct (Hok _ _ Hl) as (_ & _ & Hsnd & _). rewrite (proj1 (Hsnd x (Hsub x Hx))). auto.
+Qed.
+
+(** one eviction pass preserves the invariant *)
+Lemma pass_step cfg P0 cs p batch cs' : Inv P0 -> pass_inv P0 cs p ->
+  take_batch (numItemsToPreemptivelyEvict cfg) cs = (batch, cs') ->
+  let p1 := fold_left (fun q sn => evict_sender_suffix q (fst sn) (snd sn)) (lowest_by_sender batch []) p in
+  let p2 := byhash_remove_bulk p1 (map hash batch) in
+  pass_inv P0 cs' p2 /\ (forall b, In b batch -> ~ listed p2 b) /\ sub_pool p2 p.
+Proof.
+  intros HI0 (HI & Hsub & Hcs & Hcl) Htb. cbv zeta.
+  destruct (take_batch_spec _ _ _ _ Hcs Htb) as (T1 & T2 & T3 & T4).
+  destruct (Inv_evict_fold p (lowest_by_sender batch []) HI) as (F1 & F2 & F3).
+  set (p1 := fold_left (fun q sn => evict_sender_suffix q (fst sn) (snd sn)) (lowest_by_sender batch []) p) in *.
+  pose proof F1 as (HB1 & HS1 & HL1).
+  destruct (BH_remove_bulk p1 (map hash batch) HB1) as (C1 & C2 & C3 & C4).
+  assert (Hnotlisted : forall b, In b batch -> ~ listed p1 b).
+  { intros b Hb Hl. destruct (lowest_spec batch [] T4 b Hb) as (n & Hn & Hle).
+    apply alookup_In in Hn. pose proof (F3 _ _ b Hn Hl eq_refl). lia. }
+  assert (Hnone : forall b, In b batch -> alookup (byHash p1) (hash b) = None).
+  { intros b Hb. destruct (alookup (byHash p1) (hash b)) as [x|] eqn:E; [|reflexivity]. exfalso.
+    assert (Ehx : hash x = hash b) by (apply HB1; exact E).
+    assert (Hlx : listed p1 x) by (apply HL1; rewrite Ehx; exact E).
+    assert (Hlb0 : listed P0 b) by (destruct (T2 b Hb) as (c & Hc & Hin); eapply Hcl; eassumption).
+    assert (x = b) by (apply (listed_hash_inj P0); [exact HI0|apply Hsub, F2, Hlx|exact Hlb0|exact Ehx]).
+    subst x. exact (Hnotlisted b Hb Hlx). }
+  assert (Hsame : forall h, alookup (byHash (byhash_remove_bulk p1 (map hash batch))) h = alookup (byHash p1) h).
+  { intros h. rewrite C4. destruct (existsb (fun g => beqb g h) (map hash batch)) eqn:E; [|reflexivity].
+    apply existsb_beqb_in in E. apply in_map_iff in E. destruct E as (b & <- & Hb). symmetry. apply Hnone. exact Hb. }
+  assert (HI2 : Inv (byhash_remove_bulk p1 (map hash batch))) by (eapply Inv_lookup_ext; eauto).
+  split; [|split].
+  - split; [exact HI2|]. split; [|split; [exact T1|]].
+    + intros x Hx. apply (listed_congr _ _ x C2) in Hx. apply Hsub, F2, Hx.
+    + intros c' x Hc' Hx. destruct (T3 c' Hc') as (c & Hc & _ & Hs). eapply Hcl; [exact Hc|apply Hs; exact Hx].
+  - intros b Hb Hl. apply (listed_congr _ _ b C2) in Hl. exact (Hnotlisted b Hb Hl).
+  - intros x Hx. apply (listed_congr _ _ x C2) in Hx. apply F2. exact Hx.
+Qed.
+
+Lemma evict_passes_inv cfg P0 fuel cs p : Inv P0 -> pass_inv P0 cs p ->
+  Inv (evict_passes cfg fuel cs p) /\ sub_pool (evict_passes cfg fuel cs p) P0.
+Proof.
+  intros HI0. revert cs p; induction fuel as [|f IH]; intros cs p HP; simpl.
+  - split; [apply HP|apply HP].
+  - destruct (capacity_exceeded cfg p); [|split; apply HP].
+    destruct (take_batch (numItemsToPreemptivelyEvict cfg) cs) as (batch, cs') eqn:Etb.
+    destruct batch as [|b0 batch]; [split; apply HP|].
+    destruct (pass_step cfg P0 cs p _ _ HI0 HP Etb) as (HP' & _). apply IH. exact HP'.
+Qed.
+
+(** doEviction preserves the invariant and only removes *)
+Lemma Inv_do_eviction cfg p : Inv p -> Inv (do_eviction cfg p) /\ sub_pool (do_eviction cfg p) p.
+Proof.
+  intros HI. unfold do_eviction. destruct (capacity_exceeded cfg p); [|split; [exact HI|apply sub_pool_refl]].
+  apply evict_passes_inv; [exact HI|apply pass_inv_init; exact HI].
+Qed.
+
+(** ---------- every operation preserves the invariant ---------- *)
+
+Lemma sub_pool_agrees p q t : Inv p -> Inv q -> sub_pool q p -> agrees p t -> agrees q t.
+Proof.
+  intros HIp HIq Hsub Hag t' Ht'. apply Hag.
+  destruct HIq as (HBq & _ & HLq). assert (hash t' = hash t) by (apply HBq; exact Ht').
+  assert (Hl : listed q t') by (apply HLq; rewrite H; exact Ht'). apply Hsub in Hl.
+  destruct HIp as (_ & _ & HLp). apply HLp in Hl. rewrite H in Hl. exact Hl.
+Qed.
+
+Lemma Inv_add_tx cfg p t : Inv p -> agrees p t -> tx_wf t -> Inv (fst (add_tx cfg p t)).
+Proof.
+  intros HI Hag Hwf. unfold add_tx. destruct (evictionEnabled cfg).
+  - destruct (Inv_do_eviction cfg p HI) as (HI' & Hsub). apply Inv_add_core; [exact HI'| |exact Hwf].
+    apply (sub_pool_agrees p); assumption.
+  - apply Inv_add_core; assumption.
 Qed.
